@@ -106,11 +106,14 @@ CLAIMS = {
          "(revm's context, journal and reward hook uninterpreted) -- the hook runs exactly once in Immediate mode, for a zero reward and for a "
          "recipient already in the journal, never otherwise; a reward is deferred iff Deferred mode, fees on, non-zero, recipient not in the "
          "journal, and equals revm's rule (>= London: price - basefee, saturating; used - reservoir, saturating) for every fork; ordered commit "
-         "folds the deferred reward once into the COMMITTED account with checked add, materialises an absent account, keeps the other fields.",
+         "folds the deferred reward once into the COMMITTED account with checked add, materialises an absent account, keeps the other fields; "
+         "the beneficiary history (history.rs) from ANY 3-transaction entry vector: a read = nearest snapshot or anchor plus every later reward "
+         "oldest-first with per-step checked add, fails with the first estimate, records every contributing (writer, incarnation); validation "
+         "compares the whole chain; record only for a newer incarnation, invalidate only for the same one.",
     note=TRUST + "Gas quantities/prices bounded to 6 bits in the apply kernel (the 128-bit multiplier is intractable beyond that), 8-bit balances "
-         "in the commit kernel. NOT decided: the beneficiary history (reads folding rewards from the anchor, origin-chain validation, "
-         "incarnation-guarded record/invalidate) -- Kani and the MIR route both need Vec<HistoryEntry> models that were not built; revm's "
-         "touch/materialisation semantics inside the journal.",
+         "in the commit and history kernels, sequential history semantics only (RwLock modelled as an exclusive lock; racing record / invalidate / scan "
+         "on different entries are not explored). NOT decided: revm's touch / materialisation semantics inside the journal; IncarnationDb's "
+         "beneficiary read path that calls the history (resolve_before -> read set).",
     design="5/C07"),
  "C10": dict(
     text="Bounded model checking of ParallelState's read path and commit-side storage glue on the real code (ParallelStateView::db_storage, "
